@@ -19,7 +19,7 @@ SPECS["C17"] = {
                       "transition = (state, call kind, npts relation same/different/omitted/invalid)"),
     "real": ["esutil.integrate QGauss/QGauss2/qgauss/gauleg (Python and _cgauleg C)", "esutil.stat.interplin"],
     "stub": [],
-    "expect_reach": ["object_ran_its_own_demonstration", "integrand_returns_an_array_it_keeps", "memoised_integrand_values_handed_out_again", "npts_changed_on_live_object", "call_after_aborted_call", "integrand_raised",
+    "expect_reach": ["two_dimensional_integrand_relies_on_full_grids", "object_ran_its_own_demonstration", "integrand_returns_an_array_it_keeps", "memoised_integrand_values_handed_out_again", "npts_changed_on_live_object", "call_after_aborted_call", "integrand_raised",
                      "bad_npts_rejected", "bad_range_rejected", "sibling_table_same_length_and_end_points",
                      "integrand_reenters_the_same_object", "interval_end_points_of_type_float32",
                      "caller_edited_a_result_in_place"],
@@ -68,7 +68,7 @@ SPECS["C20"] = {
     "stub": ["wall clock (SimClock installed as esutil.pbar.time and time.time)",
              "task latencies (virtual time; the resulting completion order is enforced on the real workers)",
              "the wrapped iterable and the consumer (instrumented)"],
-    "expect_reach": ["loop_body_runs_a_progress_bar_of_its_own", "range_with_start_or_step", "pmap_used_inside_a_running_pmap_call", "clock_back", "clock_jump", "clock_stall", "consumer_abandoned", "source_raised",
+    "expect_reach": ["loop_body_runs_a_progress_bar_of_its_own", "task_given_as_partial", "task_given_as_object", "range_with_start_or_step", "pmap_used_inside_a_running_pmap_call", "clock_back", "clock_jump", "clock_stall", "consumer_abandoned", "source_raised",
                      "lengthless_source", "wrong_total", "out_of_order_completion", "straggler", "exact_tie",
                      "more_workers_than_chunks", "empty_input", "chunk_larger_than_input", "single_worker",
                      "isplit_sweep_row", "sort_with_ties", "worker_process_killed", "task_raised",
@@ -136,7 +136,7 @@ SPECS["C01"] = _rec(
      "header_dict_read_from_an_earlier_file", "caller_edited_a_header_dict_it_was_handed",
      "caller_edited_a_result_in_place", "file_names_expanded_by_esutil_var", "file_names_expanded_by_esutil_home",
      "caller_refilled_its_work_buffer_after_a_write", "header_end_aligned_to_a_block_boundary",
-     "writer_dropped_without_close", "several_writes_on_one_handle", "reopen_for_append", "working_directory_changed_while_objects_were_open", "caller_looked_at_an_open_object", "write_rejected_for_its_header_argument_then_repeated"],
+     "header_text_longer_than_a_megabyte", "writer_dropped_without_close", "several_writes_on_one_handle", "reopen_for_append", "working_directory_changed_while_objects_were_open", "caller_looked_at_an_open_object", "write_rejected_for_its_header_argument_then_repeated"],
     ("seeded search over dtypes x values x headers x entry points x prior path contents x caller interleavings; every read "
      "is compared bit-for-bit with the written table and the file's bytes are parsed independently after every write. "
      "Sampling, not proof."),
@@ -170,7 +170,7 @@ SPECS["C02"] = _rec(
      "embedded/trailing blanks and delimiter characters; size-coincidence tables with subsampling slices [s::step]; field "
      "names that differ only in case. Non-trivial = a previous read, a rejected request or a re-open preceded a judged "
      "read on the same handle"),
-    ["previous_read_on_same_handle", "read_after_rejected_request", "out_of_range_row_list",
+    ["binary_table_larger_than_2_GiB", "previous_read_on_same_handle", "read_after_rejected_request", "out_of_range_row_list",
      "object_reopened_on_other_file", "interleaved_callers", "nonzero_offset", "caller_edited_a_result_in_place", "working_directory_changed_while_objects_were_open", "caller_looked_at_an_open_object"],
     ("seeded search over selections x access styles x handle histories (cursor left by the previous read, rejected "
      "requests, interleaved handles on one file); every result is compared bit-for-bit with numpy indexing of the table "
@@ -291,7 +291,7 @@ SPECS["C12"] = {
     "real": ["esutil.htm (Python, _htmc C++ and the HTM library)", "esutil.recfile via read_pairs", "glibc stdio",
              "kernel file system"],
     "stub": [],
-    "expect_reach": ["oneshot_object_used_for_something_else_in_between", "search_circle_covers_millions_of_leaves", "matcher_reused", "match_after_rejected_call", "stale_pair_file_at_output_path",
+    "expect_reach": ["oneshot_object_used_for_something_else_in_between", "first_set_of_more_than_100000_points", "search_circle_covers_millions_of_leaves", "matcher_reused", "match_after_rejected_call", "stale_pair_file_at_output_path",
                      "interleaved_matchers", "rejected_call_size_mismatch", "rejected_call_unwritable",
                      "oneshot_compared", "second_depth_compared", "oneshot_object_reused",
                      "oneshot_buffer_refilled_in_place", "presented_swapped", "presented_strided",
